@@ -16,14 +16,14 @@ pub fn sigma_char(thorough: bool) -> Vec<&'static str> {
     v
 }
 
-/// Token-level alphabet: every keyword, every punctuation class, identifiers (plain, `main`,
+/// Token-level alphabet (33 lexemes): every keyword, every punctuation class, identifiers (plain, `main`,
 /// a builtin procedure, the builtin type), literals of every kind, a comment line.
 pub const SIGMA_TOK: &[&str] = &[
     "proc", "type", "var", "ref", "if", "else", "while", "array", "of", // keywords
     "(", ")", "[", "]", "{", "}", // brackets
     "=", "<", ":=", ":", ",", ";", "+", "-", "*", // operators / punctuation
     "a", "main", "printi", "int", // identifiers
-    "1", "0x1", "'c'", // literals
+    "1", "0x1", "'c'", "'\u{20ac}'", // literals (the last one with a character above U+00FF)
     "// c\n", // comment
 ];
 
